@@ -24,6 +24,7 @@ def corpus(tier):
         _loc("char x, y, z;\nvoid main() {\n  x = 1;\n  x = %s;\n}\n" % mul, 4, "plain statement"),
         _loc("char x, y, z;\n/* a \\\n b */\nvoid main() {\n  x = %s;\n}\n" % mul, 5, "after a splice inside a comment"),
         _loc("char x, y, z;\n#if 0\nx\n#else\n#endif\nvoid main() {\n  x = %s;\n}\n" % mul, 7, "after a skipped #if region"),
+        {"source": "char x;\n#include \"/tmp\"\nvoid main() { }\n", "args": ["-O0"], "expect": {"panic": False, "stdout_contains": "on line 1 of /tmp (included in"}, "note": "a directory given as an include: the read failure names the file and the includer"},
     ]
     # recorded known finding: the expression of a statement carries no position of its own
     multi = [
